@@ -452,10 +452,116 @@ def run_cachegrind(res):
             path = write_replay("C20-work-%s-%s.json" % (f, v), {"property": "C20", "kind": "work", "family": f, "variant": v, "base": base,
                                                           "instructions": [a, b, c], "what": "instruction count grows super-linearly with the buffer length (increment ratio %.2f > 2.5)" % ratio})
             res.add_violation(path, "family %s (%s): instructions %d/%d/%d" % (f, v, a, b, c))
-    res.states += len(jobs)
-    res.transitions += len(jobs)
+    # work must not grow with the header CAPACITY when the buffer stays the same
+    cap_rows = []
+    cap_jobs = [(f, c) for f in ("tiny-headers", "huge-header-value", "folded-lines", "ignored-lines") for c in (64, 4096, 262144)]
+
+    def cap_one(job):
+        f, c = job
+        rc, so, se, dt = run(CALLGRIND + [binary, "work", f, "2048", "complete", str(c)], timeout=600)
+        m = re.search(r"Collected\s*:\s*(\d+)", se)
+        if rc != 0 or not m:
+            raise Machinery("callgrind capacity run failed for %s %d: %s" % (f, c, se[-300:]))
+        return job, int(m.group(1))
+
+    cap_counts = {}
+    with concurrent.futures.ThreadPoolExecutor(max_workers=os.cpu_count() or 8) as ex:
+        for job, n in ex.map(cap_one, cap_jobs):
+            cap_counts[job] = n
+    for f in ("tiny-headers", "huge-header-value", "folded-lines", "ignored-lines"):
+        a, b, c = (cap_counts[(f, x)] for x in (64, 4096, 262144))
+        cap_rows.append({"family": f, "buffer": 2048, "capacities": [64, 4096, 262144], "instructions": [a, b, c]})
+        # tiny-headers with capacity 64 ends early in TooManyHeaders: compare the two large capacities
+        if c > b * 1.10 + 2000:
+            path = write_replay("C20-capacity-%s.json" % f, {"property": "C20", "kind": "work-capacity", "family": f, "instructions": [a, b, c],
+                                                              "what": "the work of a call on a 2 KiB buffer grows with the header capacity (4096 -> 262144 slots)"})
+            res.add_violation(path, "family %s: instructions %d -> %d when only the capacity grows" % (f, b, c))
+    res.states += len(jobs) + len(cap_jobs)
+    res.transitions += len(jobs) + len(cap_jobs)
+    res.engines.append({"engine": "instruction counts: capacity leg", "rule": "same 2 KiB buffer, capacity 4096 vs 262144: at most +10% instructions", "rows": cap_rows})
     res.engines.append({"engine": "instruction counts (valgrind --tool=callgrind --toggle-collect=verif_work_parse on the release digest binary: instructions inside the parse call only)",
                         "rule": "I(4N)-I(2N) <= 2.5 x (I(2N)-I(N)) for the complete input, the input without its final line ends (unterminated) and the input with a NUL in place of them (error); only the parse call is counted", "rows": rows})
+
+
+# ------------------------------------------------------------------------------------------
+# C13 supplementary: cold-start races of the real binary; inventory of shared mutable state
+# ------------------------------------------------------------------------------------------
+
+SHARED_STATE_RE = re.compile(r"\b(static\s+mut\b|Atomic(?:U|I)(?:8|16|32|64|size)\b|AtomicBool\b|AtomicPtr\b|OnceCell\b|OnceLock\b|LazyLock\b|Lazy\b|lazy_static!|thread_local!|Mutex\b|RwLock\b|UnsafeCell\b|Cell<|RefCell<)")
+
+
+def shared_state_inventory():
+    """Every construct in the crate's sources (outside cfg(httparse_verif) hook code) that can hold
+    state shared between calls or threads. The loom harness models exactly one: RUNTIME_FEATURE."""
+    found = []
+    src = os.path.join(REPO, "src")
+    for root, _, files in os.walk(src):
+        for fn in sorted(files):
+            if not fn.endswith(".rs"):
+                continue
+            path = os.path.join(root, fn)
+            skip_depth = None
+            depth = 0
+            pending_hook = False
+            for ln, line in enumerate(open(path, errors="replace"), 1):
+                stripped = line.strip()
+                if "cfg(" in stripped and "httparse_verif" in stripped:
+                    pending_hook = True
+                opens, closes = line.count("{"), line.count("}")
+                if pending_hook and skip_depth is None:
+                    if opens > closes:
+                        # a hook item with a body: skip until its closing brace
+                        skip_depth = depth
+                        pending_hook = False
+                    elif stripped.endswith(";") or stripped.endswith(")") and "fn " not in stripped and not stripped.startswith("#"):
+                        pending_hook = False  # single guarded statement
+                        depth += opens - closes
+                        continue
+                inside_hook = skip_depth is not None
+                depth += opens - closes
+                if inside_hook:
+                    if depth <= skip_depth:
+                        skip_depth = None
+                    continue
+                if stripped.startswith("//"):
+                    continue
+                m = SHARED_STATE_RE.search(line)
+                if m:
+                    found.append("%s:%d: %s" % (os.path.relpath(path, REPO), ln, stripped[:100]))
+    return found
+
+
+def run_race(res):
+    binary = build_variant("runtime", "release")
+    procs = 24 if res.tier == "quick" else 200
+    inv = shared_state_inventory()
+    modelled = [x for x in inv if "runtime.rs" in x and ("RUNTIME_FEATURE" in x or "use std::sync::atomic" in x or "AtomicU8" in x)]
+    unmodelled = [x for x in inv if x not in modelled]
+
+    def one(i):
+        return run([binary, "race", "16"], timeout=120)
+
+    bad = None
+    with concurrent.futures.ThreadPoolExecutor(max_workers=4) as ex:
+        for rc, so, se, dt in ex.map(one, range(procs)):
+            if rc == 1 and bad is None:
+                bad = so
+            elif rc not in (0, 1):
+                raise Machinery("race leg failed to run: %s" % se[-500:])
+    if bad is not None:
+        first = [l for l in bad.splitlines() if l.startswith("MISMATCH")][:3]
+        path = write_replay("C13-race.json", {"property": "C13", "kind": "race", "processes": procs,
+                                               "what": "16 threads making their first parse calls concurrently got a result that differs from the warm single-threaded result",
+                                               "mismatches": first, "shared_state": inv})
+        log("\n".join(first))
+        res.add_violation(path, "cold-start race: " + (first[0] if first else ""))
+    res.states += procs
+    res.transitions += procs
+    res.engines.append({"engine": "cold-start race of the real binary (SUPPLEMENTARY: samples schedules, decides nothing on its own; a reported difference is a true one)",
+                        "fresh_processes": procs, "threads": 16, "shared_mutable_state_in_sources": inv,
+                        "modelled_by_loom": modelled, "not_modelled_by_loom": unmodelled})
+    if unmodelled:
+        res.assumptions.append("the sources contain shared mutable state that the loom harness does not model (%s): thread-timing independence of it is only sampled by the cold-start race leg" % "; ".join(unmodelled)[:600])
 
 
 # ------------------------------------------------------------------------------------------
@@ -515,6 +621,8 @@ def run_for(prop, tier, res):
         if not res.violations:
             run_digests(res, "C13")
         run_loom(res)
+        if not res.violations:
+            run_race(res)
         if tier != "quick":
             run_cross_targets(res, "C13", ["aarch64", "i686", "core-only"])
         extra.append("loom explores the C11 model of the one atomic; avx2/sse42/swar are stubs that record which backend ran on the simulated CPU")
@@ -583,6 +691,16 @@ def replay(rep, path):
         if rep["expect"] == "reject":
             return 1 if rc == 0 else 0
         return 1 if rc != 0 else 0
+    if kind == "race":
+        binary = build_variant("runtime", "release")
+        for i in range(5 * rep.get("processes", 24)):
+            rc, so, se, _ = run([binary, "race", "16"], timeout=120)
+            if rc == 1:
+                print(so)
+                print("reproduced in fresh process number %d" % (i + 1))
+                return 1
+        print("no mismatch in %d fresh processes (a race: not every schedule shows it)" % (5 * rep.get("processes", 24)))
+        return 0
     if kind == "backend-selection":
         b = build_variant(rep["variant"], rep["profile"])
         got = run([b, "info"])[1].strip()
@@ -593,6 +711,14 @@ def replay(rep, path):
         rc, so, se, _ = run(["valgrind", "-q", "--error-exitcode=9", "--partial-loads-ok=no", binary, "memcheck", str(rep["lmax"]), "--backend", rep["backend"]], timeout=3000)
         print("\n".join(se.splitlines()[:30]))
         return 1 if rc == 9 else 0
+    if kind == "work-capacity":
+        binary = build_variant("runtime", "release")
+        vals = []
+        for c in (64, 4096, 262144):
+            rc, so, se, _ = run(CALLGRIND + [binary, "work", rep["family"], "2048", "complete", str(c)])
+            vals.append(int(re.search(r"Collected\s*:\s*(\d+)", se).group(1)))
+        print("family %s, 2 KiB buffer, capacities 64/4096/262144: instructions %s" % (rep["family"], vals))
+        return 1 if vals[2] > vals[1] * 1.10 + 2000 else 0
     if kind == "work":
         binary = build_variant("runtime", "release")
         vals = []
